@@ -114,6 +114,57 @@ func (ig *ingest) proofInstanceInNV(ev *Eval, votes *Term) {
 
 func runMore(a *Analyzer, r *Results) {
 	k := a.Anchors()
+	// ---- LK2.reset: the prepared latch (the node's lock) lives as long as the term: it is cleared only while a term is
+	// constructed. Clearing it when a view changes would let the node vote without its prepared proof.
+	{
+		loc := "termincommittee.TermInCommittee.preparedLocally"
+		ctor := a.P.Func("services/termincommittee.NewTermInCommittee")
+		nClear := 0
+		for _, f := range a.P.Funcs {
+			for _, b := range f.Blocks {
+				for _, in := range b.Instrs {
+					st, ok := in.(*ssa.Store)
+					if !ok || a.addrLoc(st.Addr) != loc {
+						continue
+					}
+					c := a.NewFCtx(f, a.EntryEnv(f, nil), 0)
+					v := c.Term(st.Val)
+					sets := v.Op == "struct" && Field(v, "isPreparedLocally").Key() == tTrue.Key()
+					if sets {
+						continue
+					}
+					nClear++
+					// every way to reach this store starts in the constructor
+					bad := ""
+					seen := map[*ssa.Function]bool{}
+					var up func(g *ssa.Function, depth int)
+					up = func(g *ssa.Function, depth int) {
+						if seen[g] || bad != "" || g == ctor {
+							return
+						}
+						seen[g] = true
+						nd := a.P.CHA().Nodes[g]
+						if depth > 4 || nd == nil || len(nd.In) == 0 || (g.Object() != nil && g.Object().Exported()) {
+							bad = funcID(g)
+							return
+						}
+						for _, e := range nd.In {
+							if e.Caller.Func == nil || !inLibraryScope(funcPkgPath(e.Caller.Func)) {
+								continue
+							}
+							up(e.Caller.Func, depth+1)
+						}
+					}
+					up(f, 0)
+					r.Check("LK2.reset", props("C01", "C09"), "the prepared latch (the node's lock on its prepared block) is cleared only while a term is constructed: it survives every view change of the height", shortName(f), a.P.InstrPos(in), bad == "",
+						"the latch is cleared on a path that starts in "+bad+" (value "+PP(v)+")", "W")
+				}
+			}
+		}
+		if nClear == 0 {
+			r.Check("LK2.reset", props("C01", "C09"), "the prepared latch (the node's lock on its prepared block) is cleared only while a term is constructed: it survives every view change of the height", "none", a.P.Pos(ctor.Pos()), true, "", "W")
+		}
+	}
 	// ---- L9: every store into a message log is followed, on all paths, by the evaluation of the gate that log feeds
 	gates := []struct{ store, gate, text string }{
 		{"StorePrepare", "GetPrepareSendersIds", "prepared quorum"},
@@ -217,7 +268,7 @@ func runMore(a *Analyzer, r *Results) {
 			}
 			ev.Verdict("LK4.proposal", props("C09", "C11", "C01"), "the prepared messages packed into a vote contain the stored proposal of exactly the requested (height, prepared view)", "", okP, "proposal is "+PP(ppm))
 			if okP {
-				ev.Verdict("LK4.prepares", props("C09", "C11"), "the packed PREPAREs are those stored for (height, prepared view, that proposal's hash)", "", ev.Same(pms, Ext(0, Call("interfaces.GetPrepareMessages", st, h, v, hashT))), "prepares are "+PP(pms))
+				ev.Verdict("LK4.prepares", props("C09", "C11", "C05"), "the packed PREPAREs are those stored for (height, prepared view, that proposal's hash)", "", ev.Same(pms, Ext(0, Call("interfaces.GetPrepareMessages", st, h, v, hashT))), "prepares are "+PP(pms))
 				ev.Require("LK4.quorum", props("C09", "C11", "C01"), "prepared messages are packed only if the prepare senders of that hash plus the proposer reach quorum in the given committee", "",
 					Truth(Ext(0, Call("quorum.IsQuorum", T("append", "", Call("interfaces.GetPrepareSendersIds", st, h, v, hashT), mid(snd(ppm))), cmt))))
 			}
@@ -292,11 +343,11 @@ func runMore(a *Analyzer, r *Results) {
 							elem := typeShort(st.Chan.Type().Underlying().(*types.Chan).Elem())
 							handoff := elem == "interfaces.ElectionTrigger" || elem == "leanhelix.blockWithProof"
 							ok := !x.Blocking || handoff
-							r.Check("U9.send", props("C14", "C15", "C16"), "a send performed by the main loop is either non-blocking (select with default) or the single-producer overwrite hand-off: the main loop must stay able to cancel the worker's contexts", funcID(f)+"|"+chanLabel(c, st.Chan), a.P.InstrPos(in), ok,
+							r.Check("U9.send", props("C14", "C15", "C16", "C12"), "a send performed by the main loop is either non-blocking (select with default) or the single-producer overwrite hand-off: the main loop must stay able to cancel the worker's contexts", funcID(f)+"|"+chanLabel(c, st.Chan), a.P.InstrPos(in), ok,
 								"blocking send on "+chanLabel(c, st.Chan)+" in the main loop", "X")
 						}
 					case *ssa.Send:
-						r.Check("U9.send", props("C14", "C15", "C16"), "a send performed by the main loop is either non-blocking (select with default) or the single-producer overwrite hand-off", funcID(f)+"|"+chanLabel(c, x.Chan), a.P.InstrPos(in), false, "bare send in the main loop", "X")
+						r.Check("U9.send", props("C14", "C15", "C16", "C12"), "a send performed by the main loop is either non-blocking (select with default) or the single-producer overwrite hand-off", funcID(f)+"|"+chanLabel(c, x.Chan), a.P.InstrPos(in), false, "bare send in the main loop", "X")
 					case ssa.CallInstruction:
 						if _, isDefer := in.(*ssa.Defer); isDefer {
 							continue
